@@ -189,10 +189,22 @@ def _check_sdvrp(v, inst, actions, cfg, exact):
         prev = a
         d = min(rem[a], Q - load)
         if d <= 0:
-            v.fail("pointless_visit")  # a visit that cannot deliver anything
+            if exact:
+                v.fail("pointless_visit")  # a visit that cannot deliver anything
+            else:
+                # on non-lattice instances a load that fills the vehicle exactly in real arithmetic leaves a float32
+                # residue of demand (or of capacity) behind: a visit delivering (next to) nothing is inside the band
+                v.must = False
+                v.band.append("residual_demand")
+                d = 0.0
         rem[a] -= d
         load += d
         v.le(load, Q, "capacity", exact=True)
+        if not exact and (abs(Q - load) <= v.tau or 0 < rem[a] <= v.tau):
+            # the vehicle is filled (or a customer is served) exactly up to float rounding: whether float32 sees a
+            # residue here is not decided by the problem definition -> inside the band
+            v.must = False
+            v.band.append("capacity_equality_float")
     if any(r > (0 if exact else 1e-6) for r in rem[1:]):
         v.fail("demand_unserved")
 
